@@ -131,11 +131,22 @@ func c01Case(c *explore.Ctx, s *explore.SubStats, text string, limits, split boo
 		}
 	})
 	report("ParseSchema", r)
+	// the same source flagged built-in (the flag is copied onto the definitions after parsing)
+	r = guarded(budget, 0, func() {
+		d, err := parser.ParseSchema(&ast.Source{Input: text, Name: "f", BuiltIn: true})
+		if o := checkErr("ParseSchema(BuiltIn)", err, "f"); o != so {
+			bad("result/builtin-flag-changes-outcome entry=ParseSchema", "ParseSchema succeeds for one value of Source.BuiltIn and fails for the other")
+		}
+		if err == nil && d == nil {
+			bad("result/nil-document entry=ParseSchema(BuiltIn)", "nil document with nil error")
+		}
+	})
+	report("ParseSchema(BuiltIn)", r)
 	s.Outcome("lex:" + lexOutcome + " query:" + qo + " schema:" + so)
 	if ntok > 0 {
 		s.Nontrivial++
 	}
-	s.Validated += 3
+	s.Validated += 4
 
 	// 3. every token limit
 	if limits {
@@ -168,7 +179,7 @@ func c01Case(c *explore.Ctx, s *explore.SubStats, text string, limits, split boo
 			}
 			a, b := text[:i], text[i+1:]
 			r = guarded(2*budget, 0, func() {
-				d, err := parser.ParseSchemas(&ast.Source{Input: a, Name: "a"}, &ast.Source{Input: b, Name: "b"})
+				d, err := parser.ParseSchemas(&ast.Source{Input: a, Name: "a", BuiltIn: i%2 == 0}, &ast.Source{Input: b, Name: "b", BuiltIn: i%3 == 0})
 				if err == nil && d == nil {
 					bad("result/nil-document entry=ParseSchemas", "nil document with nil error")
 				}
@@ -214,7 +225,7 @@ func runC01(c *explore.Ctx) {
 	start := time.Now()
 	seqSub := func(name string, alpha []string, n int, desc string) {
 		s := c.Sub(name, fmt.Sprintf("every string of ≤ %d symbols over %s (%d symbols): %d-ary tree, every prefix is a case", n, desc, len(alpha), len(alpha)),
-			"lex to end + ParseQuery + ParseSchema return normally; nil error ⇒ document; error locations inside the input; ReadToken makes progress; step budget 4000+400·len",
+			"lex to end + ParseQuery + ParseSchema (also from a source flagged built-in) return normally; nil error ⇒ document; error locations inside the input; ReadToken makes progress; step budget 4000+400·len",
 			"input yields at least one token before EOF/error")
 		if s == nil {
 			return
